@@ -538,6 +538,17 @@ func (b *band) getCFListChannels() *lorawan.CFList {
 func (b *band) GetLinkADRReqPayloadsForEnabledUplinkChannelIndices(deviceEnabledChannels []int) []lorawan.LinkADRReqPayload {
 	enabledChannels := b.GetEnabledUplinkChannelIndices()
 
+	// ignore device channels that are not part of the plan (they might have
+	// been removed from the network), exactly like
+	// GetEnabledUplinkChannelIndicesForLinkADRReqPayloads does.
+	var known []int
+	for _, c := range deviceEnabledChannels {
+		if c >= 0 && c < len(b.uplinkChannels) {
+			known = append(known, c)
+		}
+	}
+	deviceEnabledChannels = known
+
 	diff := intSliceDiff(deviceEnabledChannels, enabledChannels)
 	var filteredDiff []int
 
